@@ -316,13 +316,13 @@ pub fn c27(cli: &Cli) {
         replay(cli);
     }
     let mut run = Run::new(cli, "exploration");
-    let n: u32 = cli.tier.pick(8, 10);
+    let n: u32 = cli.tier.pick(8, 11);
     let low = Universe::new(0, n);
     sweep_universe(cli, &low, &format!("get_chunks over heights 0..{}", n - 1), &mut run);
     // the same universe shifted to the top of the height space (largest range
     // whose exclusive end is still representable): exercises the saturating
     // arithmetic of get_chunks / push_missing_chunks
-    let top_n: u32 = cli.tier.pick(6, 8);
+    let top_n: u32 = cli.tier.pick(6, 9);
     let top = Universe::new(u32::MAX - top_n, top_n);
     sweep_universe(cli, &top, &format!("get_chunks over heights (u32::MAX-{top_n})..(u32::MAX-1)"), &mut run);
     // informational: a range that ends at u32::MAX itself cannot be expressed
